@@ -706,6 +706,41 @@ fn cmd_session(args: &[String]) -> i32 {
     0
 }
 
+/// C02: the tokeniser in isolation - argument vectors given as byte arrays, the items bpaf produced for them
+/// (construct hook) written next to the declared short flags / arguments
+#[cfg(bpaf_verif)]
+fn cmd_tokens(args: &[String]) -> i32 {
+    let def_path = arg_val(args, "--def").expect("--def");
+    let argvs = arg_val(args, "--argvs").expect("--argvs");
+    let out = arg_val(args, "--out").expect("--out");
+    let def: J = serde_json::from_str(&std::fs::read_to_string(def_path).unwrap()).unwrap();
+    let b = build(&def).expect("definition builds");
+    let mut w = BufWriter::new(std::fs::File::create(&out).unwrap());
+    let mut n = 0u64;
+    for l in BufReader::new(std::fs::File::open(&argvs).unwrap()).lines() {
+        let l = l.unwrap();
+        if l.trim().is_empty() {
+            continue;
+        }
+        let av: Vec<Vec<u8>> = serde_json::from_str(&l).unwrap();
+        let argv: Vec<std::ffi::OsString> = av.iter().map(|x| bpaf_verif_harness::build::os(x)).collect();
+        bpaf::verif::start();
+        let _ = run(&b, &argv, &RunOpts { name: Some(APP), comp: None });
+        let evs = bpaf::verif::take();
+        for e in evs {
+            if e.starts_with("{\"e\":\"tokens\"") {
+                let ev: J = serde_json::from_str(&e).unwrap();
+                writeln!(w, "{}", json!({"argv": av, "flags": ev["flags"], "args": ev["args"], "toks": ev["items"], "amb": ev["amb"]})).unwrap();
+                n += 1;
+                break;
+            }
+        }
+    }
+    w.flush().unwrap();
+    println!("{}", json!({"vectors": n}));
+    0
+}
+
 fn main() {
     std::panic::set_hook(Box::new(|_| {}));
     let args: Vec<String> = std::env::args().collect();
@@ -716,6 +751,8 @@ fn main() {
         Some("wrap") => cmd_wrap(&args[2..]),
         Some("shell") => cmd_shell(&args[2..]),
         Some("session") => cmd_session(&args[2..]),
+        #[cfg(bpaf_verif)]
+        Some("tokens") => cmd_tokens(&args[2..]),
         _ => {
             eprintln!("usage: harness replay --defs F --cases F --out F [--dump-obs F]");
             2
